@@ -31,6 +31,53 @@ type reqDesc struct {
 	Code int `json:"code"`
 	// Body tells whether the handler writes a body.
 	Body bool `json:"body"`
+	// Early, if non-zero, is an informational (1xx) code the handler sends
+	// before the final one, as a handler that sends Early Hints does.
+	Early int `json:"early,omitempty"`
+}
+
+// clientRW is the client side of a request: a ResponseWriter with net/http's
+// semantics (1xx responses do not finalise the header, the first final
+// WriteHeader wins, a Write implies 200).
+type clientRW struct {
+	hdr           http.Header
+	informational []int
+	code          int
+	wrote         bool
+	body          strings.Builder
+}
+
+func (w *clientRW) Header() http.Header { return w.hdr }
+
+func (w *clientRW) WriteHeader(code int) {
+	if code >= 100 && code <= 199 {
+		w.informational = append(w.informational, code)
+
+		return
+	}
+
+	if w.wrote {
+		return
+	}
+
+	w.wrote = true
+	w.code = code
+}
+
+func (w *clientRW) Write(p []byte) (int, error) {
+	if !w.wrote {
+		w.WriteHeader(http.StatusOK)
+	}
+
+	return w.body.Write(p)
+}
+
+func (w *clientRW) finalCode() int {
+	if !w.wrote {
+		return http.StatusOK
+	}
+
+	return w.code
 }
 
 type scenario struct {
@@ -141,6 +188,11 @@ func (s *scenario) Exec(run func(threads ...func()) *verifsched.Exec) (out e3.Ou
 		verifsched.YieldLabel("handler-2")
 		check("after yield")
 		d := descOf(s, id)
+		if d.Early != 0 {
+			w.WriteHeader(d.Early)
+			verifsched.YieldLabel("handler-early")
+		}
+
 		if d.Code != 0 {
 			w.WriteHeader(d.Code)
 		}
@@ -155,7 +207,7 @@ func (s *scenario) Exec(run func(threads ...func()) *verifsched.Exec) (out e3.Ou
 	})
 
 	h := mw.Wrap(inner)
-	recs := map[string]*httptest.ResponseRecorder{}
+	recs := map[string]*clientRW{}
 	var threads []func()
 	for ti, prog := range s.Progs {
 		threads = append(threads, func() {
@@ -167,7 +219,7 @@ func (s *scenario) Exec(run func(threads ...func()) *verifsched.Exec) (out e3.Ou
 				req.RemoteAddr = "raddr-" + id
 				req.RequestURI = "/p/" + id + "?q=" + id
 				req = req.WithContext(context.WithValue(req.Context(), ctxKey{}, id))
-				rec := httptest.NewRecorder()
+				rec := &clientRW{hdr: http.Header{}}
 				recs[id] = rec
 				h.ServeHTTP(rec, req)
 			}
@@ -201,9 +253,15 @@ func (s *scenario) Exec(run func(threads ...func()) *verifsched.Exec) (out e3.Ou
 				wantBody = "resp-" + id
 			}
 
-			if rec.Code != wantCode || rec.Body.String() != wantBody {
+			wantInfo := []int(nil)
+			if d.Early != 0 {
+				wantInfo = []int{d.Early}
+			}
+
+			if rec.finalCode() != wantCode || rec.body.String() != wantBody || fmt.Sprint(rec.informational) != fmt.Sprint(wantInfo) {
 				out.Viols = append(out.Viols, e3.Viol{Kind: "client-response",
-					What: fmt.Sprintf("request %s: client received code=%d body=%q, the invocation wrote code=%d body=%q", id, rec.Code, rec.Body.String(), wantCode, wantBody)})
+					What: fmt.Sprintf("request %s: client received code=%d informational=%v body=%q, the invocation wrote code=%d informational=%v body=%q",
+						id, rec.finalCode(), rec.informational, rec.body.String(), wantCode, wantInfo, wantBody)})
 			}
 
 			// Records of this request: identified by their request_uri attribute.
@@ -269,7 +327,7 @@ func main() {
 		full := e3.Limits{Exhaust: true, MaxBound: runlib.Pick(c, 2, 4), MaxExecs: runlib.Pick(c, int64(300_000), int64(6_000_000))}
 		bounded := e3.Limits{MaxBound: runlib.Pick(c, 2, 3), MaxExecs: runlib.Pick(c, int64(100_000), int64(3_000_000))}
 
-		kinds := []reqDesc{{0, false}, {0, true}, {404, true}, {201, false}}
+		kinds := []reqDesc{{Code: 0}, {Code: 0, Body: true}, {Code: 404, Body: true}, {Code: 201}, {Code: 404, Early: 103}}
 		type item struct {
 			sc  *scenario
 			lim e3.Limits
@@ -296,7 +354,7 @@ func main() {
 			for a := range kinds {
 				for b := range kinds {
 					items = append(items, item{&scenario{Retain: retain, Progs: [][]reqDesc{{kinds[a], kinds[0]}, {kinds[b], kinds[2]}}}, bounded})
-					items = append(items, item{&scenario{Retain: retain, Progs: [][]reqDesc{{kinds[a]}, {kinds[b]}, {kinds[(a+b)%4]}}}, bounded})
+					items = append(items, item{&scenario{Retain: retain, Progs: [][]reqDesc{{kinds[a]}, {kinds[b]}, {kinds[(a+b)%len(kinds)]}}}, bounded})
 				}
 			}
 		}
